@@ -254,6 +254,8 @@ class Run:
         self.notes = []
         self.nreplay = 0
         self.seen = set()
+        for old in glob.glob(os.path.join(VERIF, "replays", prop + "-*.json")):
+            os.remove(old)
 
     def add_mc(self, res, constants=None):
         self.cov["states"] += res["distinct"]
